@@ -58,6 +58,24 @@ def replay(col, case):
         chk("rayleighjeans", em.rayleighjeans, arr(case["rj"]), fg, 300.0)
         chk("rayleighjeans_wavelength", em.rayleighjeans_wavelength, arr(case["rjl"]), fg, 300.0)
         chk("radiance2rayleighjeansTb", em.radiance2rayleighjeansTb, arr(case["rjtb"]), fg, 7.0)
+        # frequencies 10^9 times the grid values given as Python integers / floats / arrays (RjHomogeneous: the radiance
+        # scales by 10^18, the brightness temperature by 10^-18)
+        for i, f in enumerate(fg):
+            big = fl(case["fg"][i]) * 1e9
+            if big != int(big):
+                continue
+            want_rj, want_tb = fl(case["rj"][i]) * 1e18, fl(case["rjtb"][i]) * 1e-18
+            for label, arg in (("python-int", int(big)), ("float", float(big)), ("float-array", np.array([big, big]))):
+                for name, fn, second, want in (("rayleighjeans", em.rayleighjeans, 300.0, want_rj),
+                                               ("radiance2rayleighjeansTb", em.radiance2rayleighjeansTb, 7.0, want_tb)):
+                    try:
+                        got = np.asarray(fn(arg, second), dtype=float)
+                    except Exception as ex:
+                        col.violation("%s-raises-%s-%s" % (name, type(ex).__name__, label), dict(rep, f=big, observed=repr(ex)[:200]))
+                        continue
+                    col.count(1)
+                    if not np.all(np.abs(got - want) <= 1e-12 * abs(want)):
+                        col.violation("%s-wrong-value-at-GHz-%s" % (name, label), dict(rep, f=big, expected=want, observed=got.tolist()))
         # scalar round trips (the TLC-checked inverse laws, evaluated by the real functions)
         for f in fg:
             for a, b in ((em.frequency2wavelength, em.wavelength2frequency), (em.frequency2wavenumber, em.wavenumber2frequency),
@@ -166,6 +184,16 @@ def replay_snell(col, cases):
         got = call("fresnel", rep, em.fresnel, fl(c["n1"]), fl(c["n2"]), th)
         if got is not None:
             judge_fresnel("scalar", rep, got, [c])
+        # the same real index handed over with a complex TYPE (zero imaginary part)
+        got = call("snell", rep, em.snell, fl(c["n1"]), complex(fl(c["n2"]), 0.0), th)
+        if got is not None:
+            if np.iscomplexobj(got) and abs(np.imag(got)) > 0:
+                col.violation("snell-complex-angle-for-real-index", dict(rep, observed=repr(got)))
+            else:
+                judge_snell("complex-typed-n2", rep, [np.real(got)], [c])
+        got = call("fresnel", rep, em.fresnel, fl(c["n1"]), complex(fl(c["n2"]), 0.0), th)
+        if got is not None:
+            judge_fresnel("complex-typed-n2", rep, got, [c])
         for a, b, r2 in c["cplx"]:
             n2 = complex(fl(a), fl(b))
             got = call("fresnel", rep, em.fresnel, fl(c["n1"]), n2, 0.0)
@@ -189,6 +217,9 @@ def replay_snell(col, cases):
         got = call("snell", rep, em.snell, n1v, n2v, th)
         if got is not None:
             judge_snell("array", rep, got, sub)
+        got = call("snell", rep, em.snell, n1v, n2v.astype(complex), th)
+        if got is not None:
+            judge_snell("complex-typed-array", rep, np.real(got), sub)
         got = call("fresnel", rep, em.fresnel, n1v, n2v, th)
         if got is not None:
             judge_fresnel("array", rep, got, sub)
